@@ -371,8 +371,13 @@ def n2(ctx):
     # the counter is bumped by one, the mapping old -> new is recorded, the occurrence is overwritten
     inc = [s for bi, si, s in a.statements() if s["k"] == "assign" and mir.place_fields(s["lhs"]) and mir.place_fields(s["lhs"])[-1][1] == "1" and role_str(a.role_of_rvalue(s["rv"])).startswith("(m.1 AddWithOverflow const 1_u32)")]
     ins = [c for c in a.calls if c.callee and c.callee.name == "insert"]
-    oki = len(ins) == 1 and role_mentions_call(a.role_of_operand(ins[0].args[2]), "numeric") and strip_role(a.role_of_operand(ins[0].args[1]))[0] in ("param",)
+    def is_numeric(r):
+        r = strip_role(r)
+        return isinstance(r, tuple) and r[0] == "call" and r[1] == "numeric"
+    oki = len(ins) == 1 and is_numeric(a.role_of_operand(ins[0].args[2])) and strip_role(a.role_of_operand(ins[0].args[1]))[0] in ("param",)
     st = [s for bi, si, s in a.statements() if s["k"] == "assign" and s["lhs"]["p"] == ["*"] and s["lhs"]["l"] == a.param_index("s")]
+    # what is written over the occurrence and recorded is the number itself on every path (not "the old name in some case")
+    oki = oki and all(is_numeric(a.role_of_rvalue(s_["rv"])) for s_ in st)
     ctx.check(len(inc) == 1 and oki and len(st) == 1, "counter-step-and-record", "add_slot bumps the counter by one, records old -> new and overwrites the occurrence", "add_slot no longer does counter += 1 / record / overwrite exactly once (inc=%d, insert ok=%s, stores=%d)" % (len(inc), oki, len(st)), where_of(a))
     # on_see_slot: reuse the recorded number, else add_slot
     g = [c for c in o.calls if c.callee and c.callee.name == "get"]
